@@ -1,5 +1,6 @@
 (* Lemmas for property C08 (Internet checksum).  Spec side first (RFC 1071), then the proofs
    that Model/Checksum.v implements it, then fill/verify and corruption-detection lemmas. *)
+From Coq Require Import Permutation.
 From SV Require Import Lib.Base Gen.WireFields Model.Checksum.
 
 (* ------------------------------------------------------------------------------------- *)
@@ -303,4 +304,479 @@ Proof.
   destruct (cksum_accum be l <=? cksum_u32_MAX) eqn:E; [|reflexivity].
   rewrite accum_nesum in *. pose proof (nesum_bound be l Hb).
   apply Z.leb_le in E. rewrite data_value by (try assumption; lia). rewrite rfc1071_sum_norm by auto. reflexivity.
+Qed.
+
+(* ------------------------------------------------------------------------------------- *)
+(* combine                                                                                *)
+(* ------------------------------------------------------------------------------------- *)
+
+Definition wsum (ws : list Z) : Z := fold_right Z.add 0 ws.
+
+Lemma fold_left_add : forall ws a, fold_left Z.add ws a = a + wsum ws.
+Proof.
+  induction ws as [|w ws IH]; intros a; cbn [fold_left wsum fold_right].
+  - lia.
+  - rewrite IH. unfold wsum. lia.
+Qed.
+
+Lemma wsum_app : forall a b, wsum (a ++ b) = wsum a + wsum b.
+Proof.
+  unfold wsum. induction a as [|x a IH]; intros b; cbn [app fold_right].
+  - lia.
+  - rewrite IH. lia.
+Qed.
+
+Lemma wsum_bound : forall ws, words16 ws -> 0 <= wsum ws <= 65535 * Z.of_nat (length ws).
+Proof.
+  induction 1 as [|w ws Hw _ IH]; cbn [wsum fold_right length] in *; [lia|].
+  rewrite Nat2Z.inj_succ. unfold wsum in IH. lia.
+Qed.
+
+(* at most 65537 words: the u32 accumulator of `combine` cannot overflow *)
+Lemma combine_eq : forall ws, words16 ws -> Z.of_nat (length ws) <= 65537 ->
+  cksum_combine ws = norm (wsum ws).
+Proof.
+  intros ws Hw Hl. unfold cksum_combine. rewrite fold_left_add, Z.add_0_l.
+  pose proof (wsum_bound ws Hw). apply propagate_carries_eq. unfold cksum_u32_MAX. lia.
+Qed.
+
+Lemma combine_range : forall ws, words16 ws -> Z.of_nat (length ws) <= 65537 ->
+  0 <= cksum_combine ws <= 65535.
+Proof. intros. rewrite combine_eq by auto. apply norm_range. pose proof (wsum_bound ws H). lia. Qed.
+
+Lemma words16_app : forall a b, words16 (a ++ b) <-> words16 a /\ words16 b.
+Proof. intros. unfold words16. apply Forall_app. Qed.
+
+(* combine is the n-ary one's-complement addition: splitting the argument list anywhere and
+   combining the partial results gives the same value (associativity in the folded domain) *)
+Lemma combine_app : forall a b, words16 a -> words16 b ->
+  Z.of_nat (length a) <= 65537 -> Z.of_nat (length b) <= 65537 ->
+  Z.of_nat (length (a ++ b)) <= 65537 ->
+  cksum_combine (a ++ b) = cksum_combine [cksum_combine a; cksum_combine b].
+Proof.
+  intros a b Ha Hb La Lb Lab.
+  pose proof (wsum_bound a Ha). pose proof (wsum_bound b Hb).
+  pose proof (combine_range a Ha La). pose proof (combine_range b Hb Lb).
+  rewrite (combine_eq (a ++ b)) by (try apply words16_app; auto).
+  rewrite (combine_eq [_; _]) by (cbn [length]; try lia; repeat constructor; lia).
+  rewrite (combine_eq a), (combine_eq b) by auto.
+  cbn [wsum fold_right]. rewrite Z.add_0_r, wsum_app.
+  pose proof (norm_range (wsum a)). pose proof (norm_range (wsum b)).
+  rewrite norm_add_l, norm_add_r by lia. reflexivity.
+Qed.
+
+Lemma combine_assoc : forall a b c, 0 <= a <= 65535 -> 0 <= b <= 65535 -> 0 <= c <= 65535 ->
+  cksum_combine [cksum_combine [a; b]; c] = cksum_combine [a; cksum_combine [b; c]] /\
+  cksum_combine [cksum_combine [a; b]; c] = cksum_combine [a; b; c].
+Proof.
+  intros a b c Ha Hb Hc.
+  assert (Wab : words16 [a; b]) by (repeat constructor; lia).
+  assert (Wbc : words16 [b; c]) by (repeat constructor; lia).
+  pose proof (combine_range [a; b] Wab ltac:(cbn; lia)).
+  pose proof (combine_range [b; c] Wbc ltac:(cbn; lia)).
+  rewrite !(combine_eq [_; _]) in * by (cbn [length]; try lia; repeat constructor; lia).
+  rewrite (combine_eq [_; _; _]) by (cbn [length]; try lia; repeat constructor; lia).
+  cbn [wsum fold_right] in *. rewrite !Z.add_0_r in *.
+  rewrite norm_add_l, norm_add_r by lia. split; f_equal; lia.
+Qed.
+
+Lemma wsum_perm : forall a b, Permutation a b -> wsum a = wsum b.
+Proof. unfold wsum. induction 1; cbn [fold_right] in *; lia. Qed.
+
+(* commutativity: any reordering of the words gives the same result *)
+Lemma combine_perm : forall a b, Permutation a b -> cksum_combine a = cksum_combine b.
+Proof.
+  intros a b H. unfold cksum_combine. rewrite !fold_left_add, (wsum_perm a b H). reflexivity.
+Qed.
+
+Lemma combine_comm : forall a b, cksum_combine [a; b] = cksum_combine [b; a].
+Proof. intros. apply combine_perm. constructor. Qed.
+
+(* ------------------------------------------------------------------------------------- *)
+(* besum: concatenation and point updates                                                 *)
+(* ------------------------------------------------------------------------------------- *)
+
+Lemma besum_app_even : forall l1 l2, Nat.even (length l1) = true ->
+  besum (l1 ++ l2) = besum l1 + besum l2.
+Proof.
+  induction l1 using list_ind2; intros l2 He.
+  - reflexivity.
+  - discriminate.
+  - cbn [length] in He. change (Nat.even (S (S (length l1)))) with (Nat.even (length l1)) in He.
+    cbn [app besum]. rewrite IHl1 by exact He. lia.
+Qed.
+
+(* data of a concatenation (even split point) is the combination of the parts' checksums *)
+Lemma combine_data_app : forall dbg be l1 l2 d1 d2, bytes l1 -> bytes l2 ->
+  Nat.even (length l1) = true -> Z.of_nat (length (l1 ++ l2)) <= cksum_max_len ->
+  cksum_data dbg be l1 = Ok d1 -> cksum_data dbg be l2 = Ok d2 ->
+  cksum_data dbg be (l1 ++ l2) = Ok (cksum_combine [d1; d2]).
+Proof.
+  intros dbg be l1 l2 d1 d2 B1 B2 He Hl E1 E2.
+  rewrite app_length in Hl.
+  rewrite data_eq_rfc1071 in E1, E2 by (auto; lia). inversion E1; inversion E2; subst.
+  rewrite data_eq_rfc1071 by (try apply bytes_app; try rewrite app_length; auto; lia).
+  pose proof (besum_nonneg l1 B1). pose proof (besum_nonneg l2 B2).
+  rewrite !rfc1071_sum_norm by (try apply bytes_app; auto).
+  rewrite combine_eq.
+  - unfold wsum. cbn [fold_right]. rewrite Z.add_0_r.
+    pose proof (norm_range (besum l1)). pose proof (norm_range (besum l2)).
+    rewrite norm_add_l by lia. rewrite norm_add_r by lia.
+    rewrite besum_app_even by auto. reflexivity.
+  - repeat constructor; apply norm_range; lia.
+  - cbn [length]; lia.
+Qed.
+
+Definition weight (i : nat) : Z := if Nat.even i then 256 else 1.
+
+Lemma upd_length : forall l i v, length (cksum_upd l i v) = length l.
+Proof. induction l as [|h t IH]; intros [|i] v; cbn [cksum_upd length]; auto. Qed.
+
+Lemma upd_nth_same : forall l i v d, (i < length l)%nat -> nth i (cksum_upd l i v) d = v.
+Proof.
+  induction l as [|h t IH]; intros [|i] v d Hl; cbn [cksum_upd nth length] in *; try lia.
+  apply IH. lia.
+Qed.
+
+Lemma upd_nth_other : forall l i j v d, i <> j -> nth j (cksum_upd l i v) d = nth j l d.
+Proof.
+  induction l as [|h t IH]; intros [|i] [|j] v d Hn; cbn [cksum_upd nth]; auto; try lia.
+Qed.
+
+Lemma upd_firstn : forall l n i v, (i < n)%nat ->
+  firstn n (cksum_upd l i v) = cksum_upd (firstn n l) i v.
+Proof.
+  induction l as [|h t IH]; intros [|n] [|i] v Hl; cbn [cksum_upd firstn]; try lia; auto.
+  rewrite IH by lia. reflexivity.
+Qed.
+
+Lemma upd_firstn_out : forall l n i v, (n <= i)%nat ->
+  firstn n (cksum_upd l i v) = firstn n l.
+Proof.
+  induction l as [|h t IH]; intros [|n] [|i] v Hl; cbn [cksum_upd firstn]; try lia; auto.
+  rewrite IH by lia. reflexivity.
+Qed.
+
+Lemma upd_bytes : forall l i v, bytes l -> 0 <= v < 256 -> bytes (cksum_upd l i v).
+Proof.
+  induction l as [|h t IH]; intros [|i] v Hb Hv; cbn [cksum_upd]; auto;
+    apply bytes_cons in Hb; apply bytes_cons; split; try tauto; try lia.
+  apply IH; tauto.
+Qed.
+
+Lemma besum_upd : forall l i v, (i < length l)%nat ->
+  besum (cksum_upd l i v) = besum l + (v - nth i l 0) * weight i.
+Proof.
+  induction l using list_ind2; intros i v Hl.
+  - cbn in Hl. lia.
+  - destruct i; [|cbn in Hl; lia]. cbn [cksum_upd besum nth weight Nat.even]. lia.
+  - destruct i as [|[|i]].
+    + cbn [cksum_upd besum nth weight Nat.even]. lia.
+    + cbn [cksum_upd besum nth weight Nat.even]. lia.
+    + cbn [cksum_upd besum nth]. rewrite IHl by (cbn [length] in Hl; lia).
+      change (weight (S (S i))) with (weight i). lia.
+Qed.
+
+Lemma firstn_nth : forall (l : list Z) n i d, (i < n)%nat -> nth i (firstn n l) d = nth i l d.
+Proof.
+  induction l as [|h t IH]; intros [|n] [|i] d H; cbn [firstn nth]; try lia; auto.
+  apply IH. lia.
+Qed.
+
+Lemma nth_bytes : forall l i, bytes l -> 0 <= nth i l 0 < 256.
+Proof.
+  intros l i Hb. destruct (Nat.lt_ge_cases i (length l)) as [H|H].
+  - unfold bytes in Hb. rewrite Forall_forall in Hb. apply Hb. apply nth_In. exact H.
+  - rewrite nth_overflow by exact H. lia.
+Qed.
+
+(* pure form of write_u16 / read_u16 at byte offset a *)
+Definition w16 (l : list Z) (a : nat) (v : Z) : list Z :=
+  cksum_upd (cksum_upd l a (v / 256)) (S a) (v mod 256).
+Definition r16 (l : list Z) (a : nat) : Z := nth a l 0 * 256 + nth (S a) l 0.
+
+Lemma w16_length : forall l a v, length (w16 l a v) = length l.
+Proof. intros. unfold w16. rewrite !upd_length. reflexivity. Qed.
+
+Lemma w16_bytes : forall l a v, bytes l -> 0 <= v <= 65535 -> bytes (w16 l a v).
+Proof. intros. unfold w16. apply upd_bytes; [apply upd_bytes|]; auto; lia. Qed.
+
+Lemma r16_w16 : forall l a v, (S a < length l)%nat -> 0 <= v <= 65535 -> r16 (w16 l a v) a = v.
+Proof.
+  intros. unfold r16, w16.
+  rewrite (upd_nth_other _ (S a) a) by lia.
+  rewrite upd_nth_same by lia. rewrite upd_nth_same by (rewrite upd_length; lia). lia.
+Qed.
+
+Lemma r16_w16_other : forall l a b v, (S a < b \/ S b < a)%nat -> r16 (w16 l a v) b = r16 l b.
+Proof. intros. unfold r16, w16. rewrite !upd_nth_other by lia. reflexivity. Qed.
+
+Lemma nth_w16_other : forall l a v j d, j <> a -> j <> S a -> nth j (w16 l a v) d = nth j l d.
+Proof. intros. unfold w16. rewrite !upd_nth_other by lia. reflexivity. Qed.
+
+Lemma w16_w16 : forall l a v v', w16 (w16 l a v) a v' = w16 l a v'.
+Proof.
+  intros l a. unfold w16.
+  assert (E1 : forall l i v v', cksum_upd (cksum_upd l i v) i v' = cksum_upd l i v').
+  { induction l0 as [|h t IH]; intros [|i] v v'; cbn [cksum_upd]; auto. rewrite IH. reflexivity. }
+  assert (E2 : forall l i j v w, i <> j ->
+             cksum_upd (cksum_upd l i v) j w = cksum_upd (cksum_upd l j w) i v).
+  { induction l0 as [|h t IH]; intros [|i] [|j] v w Hn; cbn [cksum_upd]; auto; try lia.
+    rewrite IH by lia. reflexivity. }
+  intros v v'.
+  rewrite (E2 (cksum_upd l a (v / 256)) (S a) a) by lia.
+  rewrite !E1. reflexivity.
+Qed.
+
+Lemma firstn_w16 : forall l n a v, (S a < n)%nat -> firstn n (w16 l a v) = w16 (firstn n l) a v.
+Proof. intros. unfold w16. rewrite !upd_firstn by lia. reflexivity. Qed.
+
+Lemma firstn_w16_out : forall l n a v, (n <= a)%nat -> firstn n (w16 l a v) = firstn n l.
+Proof. intros. unfold w16. rewrite !upd_firstn_out by lia. reflexivity. Qed.
+
+(* writing a 16-bit big-endian value at an even offset changes the word sum by new - old *)
+Lemma besum_w16 : forall l a v, Nat.even a = true -> (S a < length l)%nat -> 0 <= v <= 65535 ->
+  besum (w16 l a v) = besum l - r16 l a + v.
+Proof.
+  intros l a v He Hl Hv. unfold w16, r16.
+  rewrite besum_upd by (rewrite upd_length; lia).
+  rewrite besum_upd by lia.
+  rewrite (upd_nth_other _ a (S a)) by lia.
+  unfold weight. rewrite Nat.even_succ, <- Nat.negb_even, He. cbn [negb]. lia.
+Qed.
+
+(* read/write in the outcome monad reduce to the pure forms when the field is inside the buffer *)
+Lemma read_u16_ok : forall l a, 0 <= a -> a + 2 <= Z.of_nat (length l) ->
+  cksum_read_u16 l (a, a + 2) = Ok (r16 l (Z.to_nat a)).
+Proof.
+  intros l a Ha Hl. unfold cksum_read_u16, r16. cbn [fst].
+  set (n := Z.to_nat a). assert (Hn : (S n < length l)%nat) by lia. clearbody n. clear Ha Hl.
+  revert l Hn. induction n as [|n IH]; intros l Hn.
+  - destruct l as [|b0 [|b1 t]]; cbn [length] in Hn; try lia. reflexivity.
+  - destruct l as [|b0 t]; cbn [length] in Hn; try lia.
+    cbn [skipn]. rewrite IH by lia. reflexivity.
+Qed.
+
+Lemma read_u16_panic : forall l a, 0 <= a -> Z.of_nat (length l) < a + 2 ->
+  cksum_read_u16 l (a, a + 2) = Panic.
+Proof.
+  intros l a Ha Hl. unfold cksum_read_u16. cbn [fst].
+  set (n := Z.to_nat a). assert (Hn : (length l < S (S n))%nat) by lia. clearbody n. clear Ha Hl.
+  revert l Hn. induction n as [|n IH]; intros l Hn.
+  - destruct l as [|b0 [|b1 t]]; cbn [length] in Hn; try lia; reflexivity.
+  - destruct l as [|b0 t]; [reflexivity|]. cbn [length] in Hn. cbn [skipn]. apply IH. lia.
+Qed.
+
+Lemma write_u16_ok : forall l a v, a + 2 <= Z.of_nat (length l) ->
+  cksum_write_u16 l (a, a + 2) v = Ok (w16 l (Z.to_nat a) v).
+Proof.
+  intros. unfold cksum_write_u16, w16. cbn [fst snd].
+  destruct (a + 2 <=? Z.of_nat (length l)) eqn:E; [reflexivity | lia].
+Qed.
+
+Lemma slice_to_ok : forall l n, 0 <= n <= Z.of_nat (length l) ->
+  cksum_slice_to l n = Ok (firstn (Z.to_nat n) l).
+Proof.
+  intros. unfold cksum_slice_to.
+  destruct ((0 <=? n) && (n <=? Z.of_nat (length l))) eqn:E; [reflexivity | lia].
+Qed.
+
+(* ------------------------------------------------------------------------------------- *)
+(* pseudo headers and the generic "pseudo-header word + region" checksum                  *)
+(* ------------------------------------------------------------------------------------- *)
+
+Lemma norm_ffff_iff : forall T, 0 <= T -> (norm T = 65535 <-> 0 < T /\ T mod 65535 = 0).
+Proof. intros T HT. unfold norm. destruct (T =? 0) eqn:E; lia. Qed.
+
+Lemma combine2_norm : forall P S, 0 <= P -> 0 <= S ->
+  cksum_combine [norm P; norm S] = norm (P + S).
+Proof.
+  intros P S HP HS. pose proof (norm_range P HP). pose proof (norm_range S HS).
+  rewrite combine_eq by (cbn [length]; try lia; repeat constructor; lia).
+  unfold wsum. cbn [fold_right]. rewrite Z.add_0_r.
+  rewrite norm_add_l by lia. rewrite norm_add_r by lia. reflexivity.
+Qed.
+
+Lemma combine3_norm : forall A B C, 0 <= A -> 0 <= B -> 0 <= C ->
+  cksum_combine [norm A; norm B; norm C] = norm (A + B + C).
+Proof.
+  intros A B C HA HB HC.
+  pose proof (norm_range A HA). pose proof (norm_range B HB). pose proof (norm_range C HC).
+  rewrite combine_eq by (cbn [length]; try lia; repeat constructor; lia).
+  unfold wsum. cbn [fold_right]. rewrite Z.add_0_r.
+  rewrite norm_add_l by lia.
+  replace (A + (norm B + norm C)) with (norm B + (A + norm C)) by lia.
+  rewrite norm_add_l by lia.
+  replace (B + (A + norm C)) with ((A + B) + norm C) by lia.
+  rewrite norm_add_r by lia. reflexivity.
+Qed.
+
+Lemma proto_len_bytes : forall nh len, 0 <= nh < 256 -> bytes (cksum_proto_len nh len).
+Proof. intros. unfold cksum_proto_len. repeat (apply bytes_cons; split; [lia|]). constructor. Qed.
+
+Lemma proto_len_besum : forall nh len, besum (cksum_proto_len nh len) = nh + len mod 65536.
+Proof. intros. unfold cksum_proto_len. cbn [besum]. lia. Qed.
+
+(* integer sum of the big-endian words of the pseudo header src ++ dst ++ [0; proto; len_hi; len_lo] *)
+Definition ph_sum (s d : list Z) (nh len : Z) : Z := besum s + besum d + (nh + len mod 65536).
+
+Lemma ph_sum_nonneg : forall s d nh len, bytes s -> bytes d -> 0 <= nh -> 0 <= ph_sum s d nh len.
+Proof.
+  intros. unfold ph_sum. pose proof (besum_nonneg s). pose proof (besum_nonneg d). lia.
+Qed.
+
+Lemma pseudo_header_v4_eq : forall dbg be s d nh len, bytes s -> bytes d ->
+  Z.of_nat (length s) <= cksum_max_len -> Z.of_nat (length d) <= cksum_max_len -> 0 <= nh < 256 ->
+  cksum_pseudo_header_v4 dbg be s d nh len = Ok (norm (ph_sum s d nh len)).
+Proof.
+  intros dbg be s d nh len Bs Bd Ls Ld Hn. unfold cksum_pseudo_header_v4.
+  pose proof (proto_len_bytes nh len Hn) as Bp.
+  rewrite !data_eq_rfc1071 by (auto; cbn [cksum_proto_len length]; unfold cksum_max_len; lia).
+  cbn [obind]. rewrite !rfc1071_sum_norm by auto.
+  pose proof (besum_nonneg s Bs). pose proof (besum_nonneg d Bd). pose proof (besum_nonneg _ Bp).
+  rewrite combine3_norm by lia. rewrite proto_len_besum. reflexivity.
+Qed.
+
+Lemma pseudo_header_v6_eq : forall dbg be s d nh len, bytes s -> bytes d ->
+  Z.of_nat (length s) <= cksum_max_len -> Z.of_nat (length d) <= cksum_max_len -> 0 <= nh < 256 ->
+  cksum_pseudo_header_v6 dbg be s d nh len = Ok (norm (ph_sum s d nh len)).
+Proof. exact pseudo_header_v4_eq. Qed.
+
+Definition addr_octets (a : cksum_ipaddr) : list Z :=
+  match a with CkV4 o => o | CkV6 o => o end.
+
+(* type invariant of wire::IpAddress: [u8; 4] or [u8; 16] *)
+Definition addr_ok (a : cksum_ipaddr) : Prop :=
+  bytes (addr_octets a) /\ length (addr_octets a) = (if cksum_is_v4 a then 4 else 16)%nat.
+
+Definition same_family (a b : cksum_ipaddr) : Prop := cksum_is_v4 a = cksum_is_v4 b.
+
+Lemma pseudo_header_eq : forall dbg be src dst nh len,
+  addr_ok src -> addr_ok dst -> same_family src dst -> 0 <= nh < 256 ->
+  cksum_pseudo_header dbg be src dst nh len =
+    Ok (norm (ph_sum (addr_octets src) (addr_octets dst) nh len)).
+Proof.
+  intros dbg be src dst nh len [Bs Ls] [Bd Ld] Hf Hn. unfold same_family in Hf.
+  destruct src as [s|s], dst as [d|d]; cbn [cksum_is_v4 addr_octets cksum_pseudo_header] in *;
+    try discriminate.
+  - apply pseudo_header_v4_eq; auto; unfold cksum_max_len; lia.
+  - apply pseudo_header_v6_eq; auto; unfold cksum_max_len; lia.
+Qed.
+
+Lemma pseudo_header_mixed : forall dbg be src dst nh len, ~ same_family src dst ->
+  cksum_pseudo_header dbg be src dst nh len = Panic.
+Proof.
+  intros dbg be src dst nh len Hf. unfold same_family in Hf.
+  destruct src, dst; cbn [cksum_is_v4] in Hf; try congruence; reflexivity.
+Qed.
+
+(* the pseudo header word is the RFC 1071 sum of the pseudo-header bytes *)
+Definition pseudo_bytes (src dst : cksum_ipaddr) (nh len : Z) : list Z :=
+  addr_octets src ++ addr_octets dst ++ cksum_proto_len nh len.
+
+Lemma addr_even : forall a, addr_ok a -> Nat.even (length (addr_octets a)) = true.
+Proof. intros a [_ L]. rewrite L. destruct (cksum_is_v4 a); reflexivity. Qed.
+
+Lemma pseudo_bytes_besum : forall src dst nh len, addr_ok src -> addr_ok dst ->
+  besum (pseudo_bytes src dst nh len) = ph_sum (addr_octets src) (addr_octets dst) nh len.
+Proof.
+  intros. unfold pseudo_bytes, ph_sum.
+  rewrite !besum_app_even by auto using addr_even. rewrite proto_len_besum. lia.
+Qed.
+
+Lemma pseudo_bytes_ok : forall src dst nh len, addr_ok src -> addr_ok dst -> 0 <= nh < 256 ->
+  bytes (pseudo_bytes src dst nh len) /\ Nat.even (length (pseudo_bytes src dst nh len)) = true /\
+  (length (pseudo_bytes src dst nh len) <= 36)%nat.
+Proof.
+  intros src dst nh len [Bs Ls] [Bd Ld] Hn. unfold pseudo_bytes. split; [|split].
+  - apply bytes_app; split; auto. apply bytes_app; split; auto using proto_len_bytes.
+  - rewrite !app_length, Ls, Ld. destruct (cksum_is_v4 src), (cksum_is_v4 dst); reflexivity.
+  - rewrite !app_length, Ls, Ld. destruct (cksum_is_v4 src), (cksum_is_v4 dst); cbn; lia.
+Qed.
+
+Lemma pseudo_header_rfc : forall dbg be src dst nh len,
+  addr_ok src -> addr_ok dst -> same_family src dst -> 0 <= nh < 256 ->
+  cksum_pseudo_header dbg be src dst nh len = Ok (rfc1071_sum (pseudo_bytes src dst nh len)).
+Proof.
+  intros. rewrite pseudo_header_eq by auto.
+  destruct (pseudo_bytes_ok src dst nh len) as [B _]; auto.
+  rewrite rfc1071_sum_norm, pseudo_bytes_besum by auto. reflexivity.
+Qed.
+
+(* generic checksum test: pseudo-header sum P (0 when there is none) plus a byte region *)
+Definition gen_verify (P : Z) (region : list Z) : bool := norm (P + besum region) =? 65535.
+
+(* value written by fill_checksum: complement of the sum with the checksum field zeroed *)
+Definition gen_cksum (P : Z) (region : list Z) (off : nat) : Z :=
+  65535 - norm (P + besum (w16 region off 0)).
+
+Lemma gen_verify_rfc : forall P pb region, bytes pb -> bytes region ->
+  Nat.even (length pb) = true -> P = besum pb ->
+  gen_verify P region = (rfc1071_sum (pb ++ region) =? 65535).
+Proof.
+  intros P pb region Bp Br He ->. unfold gen_verify.
+  rewrite rfc1071_sum_norm by (apply bytes_app; auto).
+  rewrite besum_app_even by auto. reflexivity.
+Qed.
+
+Lemma fill_core : forall T0, 0 <= T0 ->
+  let c := 65535 - norm T0 in 0 <= c <= 65535 /\ norm (T0 + c) = 65535.
+Proof.
+  intros T0 H0. cbv zeta. pose proof (norm_range T0 H0).
+  split; [lia|]. apply norm_ffff_iff; [lia|].
+  unfold norm in *. destruct (T0 =? 0) eqn:E; lia.
+Qed.
+
+Lemma fill_core_udp : forall T0, 0 <= T0 ->
+  let c := 65535 - norm T0 in
+  let c' := if c =? 0 then 65535 else c in 1 <= c' <= 65535 /\ norm (T0 + c') = 65535.
+Proof.
+  intros T0 H0. cbv zeta. pose proof (norm_range T0 H0).
+  destruct (65535 - norm T0 =? 0) eqn:Ec.
+  - split; [lia|]. apply norm_ffff_iff; [lia|].
+    unfold norm in *. destruct (T0 =? 0) eqn:E; lia.
+  - split; [lia|]. apply (fill_core T0 H0).
+Qed.
+
+Lemma gen_cksum_range : forall P region off, 0 <= P -> bytes region ->
+  0 <= gen_cksum P region off <= 65535.
+Proof.
+  intros. unfold gen_cksum.
+  pose proof (besum_nonneg (w16 region off 0) (w16_bytes region off 0 H0 ltac:(lia))).
+  pose proof (norm_range (P + besum (w16 region off 0))). lia.
+Qed.
+
+(* fill then verify, generic: the checksum field is 16-bit aligned inside the region *)
+Lemma gen_fill_verify : forall P region off, 0 <= P -> bytes region ->
+  Nat.even off = true -> (S off < length region)%nat ->
+  gen_verify P (w16 region off (gen_cksum P region off)) = true.
+Proof.
+  intros P region off HP Br He Hl. unfold gen_verify.
+  pose proof (gen_cksum_range P region off HP Br) as Hc.
+  rewrite <- (w16_w16 region off 0).
+  assert (B0 : bytes (w16 region off 0)) by (apply w16_bytes; auto; lia).
+  rewrite besum_w16 by (rewrite ?w16_length; auto).
+  rewrite r16_w16 by (auto; lia).
+  pose proof (besum_nonneg _ B0).
+  destruct (fill_core (P + besum (w16 region off 0)) ltac:(lia)) as [_ E].
+  unfold gen_cksum. apply Z.eqb_eq. rewrite <- E. f_equal. lia.
+Qed.
+
+Lemma gen_fill_verify_udp : forall P region off, 0 <= P -> bytes region ->
+  Nat.even off = true -> (S off < length region)%nat ->
+  let c := gen_cksum P region off in
+  let c' := if c =? 0 then 65535 else c in
+  1 <= c' <= 65535 /\ gen_verify P (w16 region off c') = true.
+Proof.
+  intros P region off HP Br He Hl. cbv zeta. unfold gen_verify.
+  assert (B0 : bytes (w16 region off 0)) by (apply w16_bytes; auto; lia).
+  pose proof (besum_nonneg _ B0).
+  pose proof (fill_core_udp (P + besum (w16 region off 0)) ltac:(lia)) as F.
+  cbv zeta in F. fold (gen_cksum P region off) in F.
+  set (c' := if gen_cksum P region off =? 0 then 65535 else gen_cksum P region off) in *.
+  destruct F as [Hc E]. split; [exact Hc|].
+  rewrite <- (w16_w16 region off 0).
+  rewrite besum_w16 by (rewrite ?w16_length; auto; lia).
+  rewrite r16_w16 by (auto; lia).
+  apply Z.eqb_eq. rewrite <- E. f_equal. lia.
 Qed.
